@@ -17,8 +17,8 @@ def run(ctx):
     counters = {}
     scan = lambda se: runner.parse_tsan(se, counters)
     env = runner.tsan_env()
-    ctx.fan(exe, "pool", 1500 if th else 256, chunk=1 if not th else 4, timeout=300, env=env, scan_stderr=scan)
-    ctx.fan(exe, "reader", 1000 if th else 160, chunk=1 if not th else 4, timeout=300, env=env, scan_stderr=scan)
+    ctx.fan(exe, "pool", 1500 if th else 256, chunk=1 if not th else 4, timeout=120, env=env, scan_stderr=scan)
+    ctx.fan(exe, "reader", 1000 if th else 160, chunk=1 if not th else 4, timeout=120, env=env, scan_stderr=scan)
     ctx.fan(exe, "crc", 8 if th else 2, chunk=1, timeout=120, env=env, scan_stderr=scan)
     ctx.add_stats(counters)
     s = ctx.stats
